@@ -25,9 +25,15 @@ func matchKnown(c Case, o benchgen.Outcome) string {
 	// work-item id, so only the rows computed by the first row of work-groups (rows 0..31 of the
 	// product) are right; the workload's Verify() compares one column only and does not notice.
 	// Signature: the worker's full comparison (not the workload's own verification) fails for
-	// matrixmultiplication and the first wrong element lies in row 32 or beyond.
+	// matrixmultiplication and the first wrong element lies in row 32 or beyond (or, with a plain GPU set, beyond the first GPU's share of the rows).
 	if m := fullCheckRow.FindStringSubmatch(o.Stderr); m != nil && c.Workload == "matrixmultiplication" {
-		if row, err := strconv.Atoi(m[1]); err == nil && row >= 32 {
+		// (with -gpus=1,2[,3,4] the rows are split evenly over the GPUs and every GPU multiplies
+		// the first rows of A: the product is right only in the first GPU's share)
+		limit := 32
+		if !c.Unified && len(c.GPUs) > 1 && c.P["y"]/len(c.GPUs) < limit {
+			limit = c.P["y"] / len(c.GPUs)
+		}
+		if row, err := strconv.Atoi(m[1]); err == nil && row >= limit {
 			return "C01-K3"
 		}
 	}
